@@ -34,6 +34,12 @@ TEXT = {
     "C06": core("6/C06", "C06_Exact and NoOrphans: the countdown armed equals the LIFETIME answered (requested if < 3600 else default), Refresh(0) deletes at once, nothing survives its allocation; probed one second before and at every expiry."),
     "C07": core("6/C07", "C07_FullRestart: only successful CreatePermission/ChannelBind raise a countdown and then to the full timeout (the permission timeout on both paths); probed one tick before and at expiry for both orders of the two timeouts."),
     "C08": core("6/C08", "Invariants C08_Bijection, C08_Range and action property C08_Conflict400 over valid and invalid numbers and peers differing only in port."),
+    "C17": dict(engine="engine-A-walk", design_ref="6/C17", technique="TLA+ decision table (LtCred.tla) + TLC + replay of every case on the real generators/handlers and through a real server",
+                level_note="Trusted: TLC, Go, synctest's clock; MAC/Key uninterpreted. Bounded: 2 handler kinds x 3 user ids x 5 durations x mint at 0/1 s after handler construction x probes at every second of a 5 s window x 13 mutation classes.",
+                level_text="LtCred.tla states C17_Iff (authenticates iff untouched pair and now <= expiry); TLC checks it over the whole table and every generated case is executed on the real code twice (handler call; signed Allocate through a real server)."),
+    "C20": dict(engine="engine-A-walk", design_ref="6/C20", technique="TLA+ spec of the generators' port bookkeeping (RelayGen.tla) + TLC + replay of every allocate/close history on the real generators over real loopback sockets",
+                level_note="Trusted: TLC, Go, the kernel's bind semantics. Bounded: ranges (61100-61101, 65534-65535, single port, 4 ports), MaxRetries 1..3, UDP+TCP, IPv4+IPv6, requested and unrequested ports, all fill/drain histories of those ranges.",
+                level_text="Action properties C20_NeverShared / C20_InRange / C20_Requested / C20_FailOnlyWhenFull are model-checked; every edge is replayed on the three real generators with a scripted random source and real sockets."),
     "C19": core("6/C19", "Responses go to the requester with its transaction id; Binding/Allocate report the true mapped address, the relayed address that really is the allocation's and no other's, and the lifetime in force; retransmitted Allocate is replayed, another Allocate gets 437 and changes nothing."),
 }
 
